@@ -13,7 +13,9 @@ CORPUS = ["ca 32 POST none 1 ipout:2 none none 1", "ca 32 POST none 1 ipin:1:den
           # the netblock test is about the TCP peer: a loopback peer naming an inside address in a header is outside
           "ca 32 POST none 1 ipxff:2 none none 1", "ca 65535 POST none 1 ipxri:2 none none 1", "ca 32 POST none 1 ipinhdr:2 none none 1",
           "rt /v1/refreshRoleRequestingCert password POST none 1 ipxff:2 none none 1",
-          "rt /certgen/ password POST none 1 ipxri:2 none none 1"]
+          "rt /certgen/ password POST none 1 ipxri:2 none none 1",
+          # genuine first, forged second: identical claims under a foreign signature
+          "ca 65535 POST none 1 none auth:ok:ok:ok:past:future:74:alice none 1", "ca 65535 POST none 1 none auth:foreign:ok:ok:past:future:74:alice none 1"]
 
 
 def run(ctx):
